@@ -17,7 +17,7 @@ RULE = ('cases = generated DSG spec x encoder x a history of up to 4 fix/free op
         'everything enumeration and decodes equal the originals; fixing a connection variable / an out-of-range value must '
         'raise and leave the state unchanged; one evaluation = one operation; non-trivial = a conditionally active '
         'variable is fixed and a decode happens between fix and free; distinct by sha1(spec, encoder, history)')
-BUDGET = {'quick': 100, 'thorough': 6000}
+BUDGET = {'quick': 250, 'thorough': 6000}
 
 
 @st.composite
